@@ -230,6 +230,61 @@ def gen_switch(rng, usable_client):
     return (f"SET character_set_database = 'garbage'", f"[IVar false ScSession {S('character_set_database')} (RVal (VStr {S('garbage')}))]", dict())
 
 
+def wide_client_probe(ctx, rng):
+    """utf16 / utf32 (ucs2, utf16le) cannot carry the protocol's NUL-terminated strings (user, database, COM_FIELD_LIST table):
+    a server that lets a client DECLARE one of them cannot deliver those strings unchanged.  They are refused as client
+    character sets - in the handshake, by SET NAMES / SET CHARACTER SET / SET character_set_client, by COM_CHANGE_USER -, the
+    connection goes on in its previous character set, and they stay available for results"""
+    for cs, coll in (("utf16", 54), ("utf32", 60)):
+        if cs not in REF:
+            continue
+        env = impl.Env(own_sleep=False)
+        try:
+            log = []
+            TextSession.LOG = log
+            TextSession.REBIND = False
+            srv = impl.make_server(env, TextSession)
+            c = RefClient(env, srv, rng, 45, "u", "db", [])
+            if not c.ok:
+                return dict(problem="handshake refused")
+            for sql in (f"SET NAMES {cs}", f"SET CHARACTER SET {cs}", f"SET character_set_client = '{cs}'", f"SET @@session.character_set_client = {cs}"):
+                rep = c.decode_reply(c.query(sql))
+                ctx.evals += 1
+                if rep[0] != "err":
+                    return dict(problem=f"a client was allowed to declare {cs}, in which the protocol's NUL-terminated strings cannot be sent", sql=sql, reply=repr(rep)[:100])
+            text = "SELECT 'caf\u00e9' FROM t"
+            del log[:]
+            c.query(text)
+            if not any(x[0] == "query" and x[1] == text for x in log):
+                return dict(problem=f"after refusing {cs} the connection no longer decodes its statements", sent=text, log=repr(log)[:200])
+            rep = c.decode_reply(c.query(f"SET character_set_results = '{cs}'"))
+            if rep[0] != "ok":
+                return dict(problem=f"{cs} refused as results character set", reply=repr(rep)[:100])
+        finally:
+            env.close()
+        # declared in the handshake: refused, or served in a character set that can carry the strings - never "accepted" with
+        # the user name and database lost
+        env = impl.Env(own_sleep=False)
+        try:
+            log = []
+            TextSession.LOG = log
+            srv = impl.make_server(env, TextSession)
+            conn = impl.Conn(env, srv, cid=0)
+            env.settle(); conn.take()
+            body = cl.handshake_response(user=b"root", caps=cl.BASE_CAPS | cl.CLIENT_CONNECT_WITH_DB, db=b"db", charset=coll)
+            conn.feed(cl.frame(body, 1))
+            pk_ = cl.split_raw(conn.take())
+            ctx.evals += 1
+            accepted = bool(pk_) and pk_[-1][1][:1] == b"\x00"
+            if accepted:
+                conn.feed(cl.frame(bytes([cl.COM_QUERY]) + b"SELECT c FROM t", 0)); conn.take()
+                if not any(x[0] == "query" and x[3] == "db" for x in log):
+                    return dict(problem=f"a handshake declaring {cs} (collation {coll}) was accepted and its database did not arrive", log=repr(log)[:200])
+        finally:
+            env.close()
+    return None
+
+
 def repeated_result(ctx, rng):
     """the same result (same column names, types and column character sets) before and after the results character set changes,
     and back: names and cells decode to what the application returned every time"""
@@ -500,6 +555,9 @@ def run(ctx: core.Ctx):
     rr = repeated_result(ctx, rng)
     if rr:
         witness = witness or dict(kind="repeated-result", **rr)
+    wc = wide_client_probe(ctx, rng)
+    if wc:
+        witness = witness or dict(kind="wide-client-character-set", **wc)
     nh = 60 if ctx.quick else 1500
     hist = []
     for _ in range(nh):
